@@ -75,7 +75,10 @@ class Ref:
 def run_schedule(kspec: Any, arrivals: tuple[tuple[float, str, str], ...], periods: int = PERIODS) -> dict[str, Any]:
     """arrivals: sorted tuple of (slot, kind, order) with order in {'io', 'timer'} (only matters on ties)."""
     default = kspec == "default"
-    w = ConnWorld(client=default, keepalive=None if default else float(kspec))
+    dbg = isinstance(kspec, str) and kspec.startswith("debug:")
+    if dbg:
+        kspec = float(kspec[6:])  # the same schedule with debug logging requested on the connection
+    w = ConnWorld(client=default, keepalive=None if default else float(kspec), debug=dbg)
     try:
         stops: list[tuple[float, bool]] = []
         if default:
@@ -243,6 +246,7 @@ def run(tier: str, seed: int) -> Result:
             jobs += schedules(k, 2 if q else 3, KINDS, ("PRESP", "UK", "PR") if q else KINDS)
         else:
             jobs += schedules(k, 1, KINDS, ())
+    jobs += schedules("debug:2.0", 2 if q else 3, KINDS, ("PRESP", "UK"))
     # a non-dyadic value with strictly interior arrivals (no ties possible): K = 7.3, arrivals shifted by K/8
     slots = [s + 0.5 for s in range(0, PERIODS * GRID - 1)]
     for s in slots:
